@@ -15,6 +15,8 @@ EXPLANATION = ("C11: operations, comparisons, narrowing conversions and short ex
 BOUNDS = {"quick": "digits {7,15,24,31}, exponents {-16,-8,-1,0,4}, rounding {nearest, native, neg_inf, tie_to_pos_inf}, overflow {saturated, throwing, trapping, undefined}, narrowest int; catalogue of ~20 shapes (single ops, narrowing, chains of 2-3 ops), seeded third of the product; both compiler views for a sample",
           "thorough": "full product, narrowest int64"}
 
+OPTS = {"quick": {"kernel_budget": 400}, "thorough": {"kernel_budget": 2400}}
+
 RT = {"nearest": "cnl::nearest_rounding_tag", "native": "cnl::native_rounding_tag", "neginf": "cnl::neg_inf_rounding_tag",
       "tiepos": "cnl::tie_to_pos_inf_rounding_tag"}
 OT = {"sat": "cnl::saturated_overflow_tag", "thr": "cnl::_impl::throwing_overflow_tag", "trp": "cnl::trapping_overflow_tag",
@@ -150,7 +152,7 @@ def mk_wide_mul(name, r, o):
         prod = a * b
         return [("exact-128-digit-product", X.eq(o_[0] + o_[1] * (1 << 64), prod)),
                 ("sign-of-product", X.eq(o_[2], X.ite(prod > 0, 1, 0))), ("result-digits", X.eq(o_[3], 128))]
-    return Kernel(name, args, "i32", body, mode="int", W=None, claims=claims, unwind=60, timeout=25,
+    return Kernel(name, args, "i32", body, mode="int", alt_modes=("bv",), W=136, claims=claims, unwind=60, timeout=25,
                   desc="static_integer<64> * static_integer<64> (multi-word 128-digit product) [%s,%s]" % (r, o),
                   tags={"shape": "si_mul_wide", "r": r, "o": o})
 
